@@ -60,9 +60,10 @@ func (sapp *serverApp) AfterApply() error {
 
 	// Paths below the root are tidied up textually before use. With ".." behind a symlink in the root's own spelling
 	// that would name another directory than the one checked above, so serve the checked one under its real name.
-	root, err = filepath.EvalSymlinks(root)
-	if err != nil {
-		return fmt.Errorf("root directory: %w", err)
+	// (Some places can be used but not resolved - certain mapped or virtual drives on windows. They are served
+	// as they were given, like before.)
+	if resolved, err := filepath.EvalSymlinks(root); err == nil {
+		root = resolved
 	}
 
 	sapp.Root = root
